@@ -20,21 +20,23 @@ let () =
     let rq = { rq_method = bs f.(2); rq_uri = bs f.(3); rq_body = bytes_of_hex f.(4) } in
     let entries_s = List.filter (fun s -> s <> "") (split_on ';' f.(5)) in
     let parse_cr up = match split_on ':' up with [u; p] -> { cr_user = bytes_of_hex u; cr_pass = bytes_of_hex p } | _ -> failwith "creds" in
-    let map, def = List.fold_left (fun (m, d) e ->
+    let put st e =
       match String.index_opt e '=' with
       | Some i ->
         let realm = String.sub e 0 i and up = String.sub e (i + 1) (String.length e - i - 1) in
-        if realm = "*" then (m, Some (parse_cr up)) else ((bytes_of_hex realm, parse_cr up) :: m, d)
-      | None -> (m, d)) ([], None) entries_s in
-    (* HashMap::insert: a later entry for the same realm replaces the earlier one; store_get takes the first match *)
-    let store = (map, def) in
+        if realm = "*" then set_default (parse_cr up) st else add_for_realm (bytes_of_hex realm) (parse_cr up) st
+      | None -> st in
+    (* CredentialStore::add_for_realm / set_default of the model, applied in the order of the case *)
+    let store = ref (List.fold_left put ([], None) entries_s) in
     let opts = if Array.length f > 7 then f.(7) else "" in
     let contains s sub = let n = String.length sub in let rec go i = i + n <= String.length s && (String.sub s i n = sub || go (i + 1)) in go 0 in
     let enforce = contains opts "enforce" and rejmd5 = contains opts "rejectmd5" in
     let es = ref [] in
     let steps = List.filter (fun s -> s <> "") (split_on ';' f.(6)) in
     let outs = List.map (fun step ->
-      if step = "U" then begin
+      if String.length step > 0 && step.[0] = 'C' then begin
+        store := put !store (String.sub step 1 (String.length step - 1)); "C[]"
+      end else if step = "U" then begin
         let (es', hs) = authorize !es in
         let old = !es in
         es := es';
@@ -63,7 +65,7 @@ let () =
           | _ -> failwith "bad challenge") chs in
         (* read_challenges: all WWW-Authenticate first, then all Proxy-Authenticate *)
         let chs = List.filter (fun (p, _) -> not p) chs @ List.filter (fun (p, _) -> p) chs in
-        let (es', failed) = handle_authenticate enforce rejmd5 store !es chs in
+        let (es', failed) = handle_authenticate enforce rejmd5 !store !es chs in
         es := es';
         if failed = [] then "A[ok]" else "A[fail:" ^ String.concat "," (List.map hexs failed) ^ "]"
       end) steps in
